@@ -2,7 +2,7 @@
 \* the fix is seeded/fixrev-C20-manifestdelete-digest).  Expected counterexample: Containment violated by ManifestDelete
 \* with a caller-supplied manifest and a digest such as sha256:../../../victim.  The default of every other
 \* configuration is DeleteValidates = TRUE (the repaired code).
-CONSTANTS TitleClean = "rooted" ExtractGuard = "reroot" LinkPolicy = "skip" DeleteValidates = FALSE MaxFull = 1 MaxCore = 1
+CONSTANTS TitleClean = "rooted" ExtractGuard = "reroot" Whiteout = "none" LinkPolicy = "skip" DeleteValidates = FALSE MaxFull = 1 MaxCore = 1
   Eps = {"lay"}
 SPECIFICATION Spec
 INVARIANTS Containment
